@@ -1,7 +1,7 @@
 #!/bin/bash
 # usage: tools/run_all.sh [quick|thorough] [ids...]  -- runs the registered checks on the current tree, prints one line each
 tier=${1:-quick}; shift
-cd /verif
+cd "$(dirname "$0")/.."
 ids=${@:-$(python3 -c "import json;print(' '.join(c['property_id'] for c in json.load(open('MANIFEST.json'))['checks']))")}
 for id in $ids; do
   mod=checks.$(echo $id | tr A-Z a-z)
